@@ -32,7 +32,19 @@ def integrityCheck (m : Msg) : Nat :=
     `CloneTo`) -/
 def decodeFrom (m : Msg) (data : Bytes) : Nat := realloc m (m.decodeFrom data).1
 
-/-- allocations of `Build` with the given setters, for Raw and for the integrity setter's `Sum` -/
-def build (mac : Bytes → Bytes → Bytes) (m : Msg) (ss : List Setter) : Nat := realloc m (Stun.build mac m ss).1
+/-- uattrs.go `UnknownAttributes.AddTo` collects the value in `make([]byte, 0, 2*20)` ("20 should be enough") and
+    appends two bytes per entry: beyond 20 entries `append` moves it to the heap, doubling the capacity each time
+    (40 → 80 → 160 → 320 bytes; Go's growth rule below 256 bytes) -/
+def unknownAddTo (n : Nat) : Nat :=
+  if n ≤ 20 then 0 else if n ≤ 40 then 1 else if n ≤ 80 then 2 else if n ≤ 160 then 3 else 4
+
+/-- allocations a setter makes besides growing `Raw` -/
+def setterExtra : Setter → Nat
+  | .unknownAttrs ts => unknownAddTo ts.length
+  | _ => 0
+
+/-- allocations of a `Build` in which every setter runs: moving `Raw`, plus what the setters allocate themselves -/
+def build (mac : Bytes → Bytes → Bytes) (m : Msg) (ss : List Setter) : Nat :=
+  realloc m (Stun.build mac m ss).1 + (ss.map setterExtra).sum
 
 end Stun.Alloc
